@@ -311,3 +311,70 @@ func symlinkLayouts(c *engine.Ctx, fails *int) []*core.PResult {
 	}
 	return res
 }
+
+// nearDupAcrossFiles (C10): two sibling files each define `$defs/Options`, the two definitions differing in exactly
+// ONE keyword (the perturbations of neardup.go: a bound, a format, required, a default, ...); the main document
+// refers to both.  The reference form must behave like the form with both definitions inlined: the second
+// reference must not be served by the first file's type.
+func nearDupAcrossFiles(c *engine.Ctx, fails *int) []*core.PResult {
+	var pcs []*core.PCase
+	for _, p := range nearDupPerturbations() {
+		for _, swap := range []bool{false, true} {
+			a, b := p.a, p.b
+			if swap {
+				a, b = b, a
+			}
+			var docs []any
+			for _, x := range p.docs {
+				for _, y := range p.docs {
+					docs = append(docs, pairDoc("primary", x, "secondary", y))
+				}
+			}
+			inline := sgen.M{"type": "object", "properties": sgen.M{"primary": sgen.DeepCopy(a), "secondary": sgen.DeepCopy(b)}}
+			in := baseCase("c10-neardup-inline", inline, docs, p.name, fmt.Sprint(swap))
+			main := sgen.M{"$id": "urn:main", "type": "object", "properties": sgen.M{
+				"primary": sgen.M{"$ref": "primary.json#/$defs/Options"}, "secondary": sgen.M{"$ref": "secondary.json#/$defs/Options"}}}
+			rf := baseCase("c10-neardup-ref", main, docs, p.name, fmt.Sprint(swap))
+			cfg := core.DefaultCfg()
+			cfg.RootType = "Root"
+			cfg.FileName = "main/schema.json"
+			rf.Cfg = cfg
+			rf.SchemaID = "urn:main"
+			rf.Files = map[string][]byte{
+				"main/primary.json":   core.MustJSON(sgen.M{"$schema": "x", "$id": "urn:primary", "$defs": sgen.M{"Options": sgen.DeepCopy(a)}}),
+				"main/secondary.json": core.MustJSON(sgen.M{"$schema": "x", "$id": "urn:secondary", "$defs": sgen.M{"Options": sgen.DeepCopy(b)}}),
+			}
+			pcs = append(pcs, in, rf)
+		}
+	}
+	res := runCases(c, pcs)
+	for i := 0; i+1 < len(res); i += 2 {
+		in, rf := res[i], res[i+1]
+		name := rf.Case.Labels[0]
+		if in.RunsJ == nil {
+			continue
+		}
+		if rf.RunsJ == nil {
+			*fails++
+			if *fails <= 3 {
+				c.Fail("oracle", "same-named definitions in two files differing in "+name+": the inline form generates, the reference form does not: "+rf.Real.ErrMsg+rf.Real.Panic+clip(rf.CompileErr, 200), replayOf(rf, -1, M{"files": filesAsStrings(rf.Case.Files)}), false)
+			}
+			continue
+		}
+		for d := range in.DocJSON {
+			if containsNull(in.Case.Docs[d]) {
+				continue
+			}
+			a, b := in.RunsJ[d], rf.RunsJ[d]
+			c.Eval(fmt.Sprintf("neardup-files|%s|%s/%s|%d", name, a.Kind, b.Kind, d))
+			if a.Kind != b.Kind || (a.Kind == "ok" && a.Canon != b.Canon) {
+				*fails++
+				if *fails <= 3 {
+					c.Fail("oracle", fmt.Sprintf("same-named definitions in two files differing only in %s: inline %s %s, reference form %s %s", name, a.Kind, clip(a.Canon+a.Msg, 120), b.Kind, clip(b.Canon+b.Msg, 120)),
+						replayOf(rf, d, M{"files": filesAsStrings(rf.Case.Files), "inline_schema": string(in.SchemaJSON)}), false)
+				}
+			}
+		}
+	}
+	return res
+}
